@@ -57,13 +57,24 @@ def _run_vc(args):
         try:
             node = source.find_def(vc.module, vc.qualname)
             out["sha"] = source.seg_hash(vc.module, node)
-        except KeyError as e:
-            out["unsupported"] = "function not found: %s" % e
+            frag = None
+            if vc.fragment is not None:
+                import ast as _ast
+                import hashlib as _hl
+
+                frag = vc.fragment(node)
+                if not frag:
+                    out["unsupported"] = "fragment not found in %s" % vc.qualname
+                    return out
+                out["sha"] = _hl.sha256("\n".join(_ast.unparse(x) for x in frag).encode()).hexdigest()[:16]
+        except (KeyError, IndexError, AssertionError) as e:
+            out["unsupported"] = "function/fragment not found: %s" % e
             return out
         ex = ip.Explorer(axioms=list(vc.pre) + list(vc.axioms), max_paths=vc.max_paths)
 
         def thunk(ex_):
             I = ip.Interp(ex_, stubs=vc.stubs, loops=vc.loops, contracts=vc.contracts)
+            I.fragment, I.fdef = frag, node
             return vc.thunk(I)
 
         try:
